@@ -113,3 +113,5 @@ def check(v, tier, opts):
             keep.append(why + " — no native witness harness covers this" if STUB_HARNESS.search(why) else why)
     v.inconclusive = keep
     return v.finish(RULE)
+
+READY = True
